@@ -49,6 +49,51 @@ theorem rangeRejects_false {c : Cfg} {r : Range} {x : Num} (hc : c.pinned = fals
   | negInf => cases hl : r.leftInc <;> simp [numLt, numLe, numGt, numGe, hl] at h
   | nan => simp [hc] at h
 
+theorem Dec.lt_false_of_le {a b : Dec} (h : Dec.le a b = true) : Dec.lt b a = false := by
+  unfold Dec.le at h; unfold Dec.lt
+  rw [Dec.scaleL_swap b a, Dec.scaleR_swap b a]
+  simp at h ⊢; omega
+
+theorem Dec.le_false_of_lt {a b : Dec} (h : Dec.lt a b = true) : Dec.le b a = false := by
+  unfold Dec.lt at h; unfold Dec.le
+  rw [Dec.scaleL_swap b a, Dec.scaleR_swap b a]
+  simp at h ⊢; omega
+
+/-- the range test of the repaired code rejects nothing that lies inside the declared range -/
+theorem rangeRejects_of_contains {c : Cfg} {r : Range} {d : Dec} (hc : c.pinned = false)
+    (h : Range.contains r d = true) : rangeRejects c r (.fin d) = false := by
+  unfold Range.contains at h
+  unfold rangeRejects
+  simp only [numLt, numLe, numGt, numGe, hc]
+  cases hl : r.leftInc <;> cases hr : r.rightInc <;> simp [hl, hr] at h ⊢
+  all_goals
+    (obtain ⟨h1, h2⟩ := h
+     constructor
+     · first | exact Dec.lt_false_of_le h1 | exact Dec.le_false_of_lt h1
+     · first | exact Dec.lt_false_of_le h2 | exact Dec.le_false_of_lt h2)
+
+/-- the dependency resolution accepts every input that respects the declared dependency -/
+theorem effOptional_of_depOK {o : Opts} {key : Str} {m : Obj} (h : depOK o key m = true) :
+    effOptional o key m = .ok (declOptional o m) := by
+  unfold depOK at h
+  unfold effOptional declOptional
+  cases ho : o.optional with
+  | false => simp
+  | true =>
+    simp only [ho, Bool.not_true, Bool.false_or] at h
+    simp only [if_true, Bool.true_and]
+    cases hd : o.optionalDep with
+    | nil => simp
+    | cons c d =>
+      simp only [hd] at h ⊢
+      by_cases hcn : c = '!'
+      · simp only [hcn, if_true] at h ⊢
+        simp only [Bool.and_eq_true, Bool.not_eq_true', List.isEmpty_eq_false_iff, bne_iff_ne, ne_eq] at h
+        simp [h.1, h.2]
+      · simp only [hcn, if_false] at h ⊢
+        have : hasKey (c :: d) m = hasKey key m := by simpa using h
+        simp [this]
+
 /-! ### strconv -/
 
 theorem takeDigits_all {s : Str} (h : s.all isDigit = true) : takeDigits s = (s, []) := by
